@@ -10,7 +10,7 @@
    (HuffmanTree::deserialize on a table that is not prefix free). *)
 From Coq Require Import Uint63.
 From ZV.Common Require Import Base Run.
-From ZV.C15 Require Import Model ModelBlob ModelIo2 ModelHuff.
+From ZV.C15 Require Import Model ModelBlob ModelIo2 ModelHuff ModelEntropy.
 Open Scope N_scope.
 
 Inductive verdict : Type :=
@@ -90,6 +90,14 @@ Definition run_model2 (env : cenv_t) (pid arg : N) (aux data : list N) : option 
            | Some e => Some (Exact (obsR (ctx_decode_o e data arg)))
            | None => None
            end
+  (* Rans64Decoder<x1/x2/x4/x8>::decode, aux = the 256 normalised frequencies of the trained table *)
+  | 120 | 121 | 122 | 123 =>
+           Some (Exact (obsR (rans_decode (if pid =? 120 then 1 else if pid =? 121 then 2 else if pid =? 122 then 4 else 8) aux data arg)))
+  (* fse_decompress / fse_decompress_with_config: exact up to the end of the header validation *)
+  | 130 => Some (match fse_decompress_v data with
+                 | FVal r => Exact (obsR r)
+                 | FAny a => if AS_LIMIT <=? a then Exact Panic else AnyValue
+                 end)
   (* decode_x1 / x2 / x4 / x8 *)
   | 108 | 109 | 110 | 111 =>
            match cenv_get env aux with
@@ -103,7 +111,7 @@ Definition run_model2 (env : cenv_t) (pid arg : N) (aux data : list N) : option 
   | _ => None
   end.
 
-Definition model2_ids : list N := [50; 90; 91; 100; 101; 102; 103; 104; 105; 108; 109; 110; 111].
+Definition model2_ids : list N := [50; 90; 91; 100; 101; 102; 103; 104; 105; 108; 109; 110; 111; 120; 121; 122; 123; 130].
 
 Fixpoint match_vals (m v : list Z) : bool :=
   match m, v with
